@@ -341,7 +341,12 @@ class _TransposeHi:
         i = _pick(D_, vals, lambda v: v.ndim >= 3)
         if i is None:
             return None
-        return {"op": "transpose_hi", "args": [i], "axes": D_.perm(vals[i].ndim)}
+        n = vals[i].ndim
+        if n >= 4 and D_.chance(1, 2):
+            # a rotation: whichever axis an integer index removes, the rest is still a 3-cycle
+            k = D_.choice([1, n - 1])
+            return {"op": "transpose_hi", "args": [i], "axes": [(j + k) % n for j in range(n)]}
+        return {"op": "transpose_hi", "args": [i], "axes": D_.perm(n)}
 
     np = _Transpose.np
     da = _Transpose.da
@@ -493,7 +498,7 @@ class _Flip:
         return da.flip(a[0], s["axis"])
 
 
-@op("diagonal", "shape")
+@op("diagonal", "index")
 class _Diagonal:
     """np.diagonal / np.trace: layers that address source blocks by computed (NumPy-integer) coordinates."""
 
